@@ -8,7 +8,7 @@ Local Open Scope Z_scope.
 Definition meth_code (m : meth) : Z :=
   match m with MAdd => 0 | MMul => 1 | MGet => 2 | MSub => 3 | MDiv => 4 | MBoom => 5
              | MHidden => 6 | MSecret => 7 | MDunder => 8 | MNoSuch => 9 | MDotted => 10
-             | MLen => 11 | MGetItem => 12 | MGated => 13 | MDSecret => 14 | MDHidden => 15 | MDDel => 16 end.
+             | MLen => 11 | MGetItem => 12 | MGated => 13 | MDSecret => 14 | MDHidden => 15 | MDDel => 16 | MLastErr => 17 end.
 Definition acall_eqb (a b : acall) : bool :=
   (meth_code (c_meth a) =? meth_code (c_meth b)) && (c_arg a =? c_arg b).
 Definition why_eqb (a b : why) : bool :=
@@ -22,13 +22,14 @@ Definition aexn_eqb (a b : aexn) : bool :=
   | ESubmit, ESubmit => true
   | _, _ => false
   end.
-Definition out_eqb (a b : outcome Z aexn) : bool :=
+Definition out_eqb (a b : outcome aval aexn) : bool :=
   match a, b with
-  | Ok v, Ok v' => v =? v'
+  | Ok (VInt v), Ok (VInt v') => v =? v'
+  | Ok (VExc e), Ok (VExc e') => aexn_eqb e e'
   | Exc e, Exc e' => aexn_eqb e e'
   | _, _ => false
   end.
-Definition view_eqb (a b : client_obs Z aexn) : bool :=
+Definition view_eqb (a b : client_obs aval aexn) : bool :=
   match a, b with
   | CNothing, CNothing => true
   | CRaised e, CRaised e' => aexn_eqb e e'
@@ -40,13 +41,13 @@ Definition view_eqb (a b : client_obs Z aexn) : bool :=
    implementation currently shows (probed by the harness), and the implementation's
    observations of the batch run and of the one-by-one run on an identical object *)
 Record case1 := { k_oneway : bool; k_submit_broken : bool; k_s0 : Z; k_calls : list acall;
-                 k_b_state : Z; k_b_log : list acall; k_b_view : client_obs Z aexn;
-                 k_q_state : Z; k_q_log : list acall; k_q_outs : list (outcome Z aexn) }.
+                 k_b_state : Z; k_b_log : list acall; k_b_view : client_obs aval aexn;
+                 k_q_state : Z; k_q_log : list acall; k_q_outs : list (outcome aval aexn) }.
 
-Definition model_batch (c : case1) : batch_run Z acall Z aexn :=
+Definition model_batch (c : case1) : batch_run Z acall aval aexn :=
   if k_submit_broken c then run_batch_submit_fails ESubmit (k_calls c) (k_s0 c)
   else acc_batch loop_breaks (k_oneway c) (k_calls c) (k_s0 c).
-Definition model_seq (c : case1) : run Z acall Z aexn := acc_seq (k_calls c) (k_s0 c).
+Definition model_seq (c : case1) : run Z acall aval aexn := acc_seq (k_calls c) (k_s0 c).
 
 Definition check_one (c : case1) : bool :=
   let b := model_batch c in
@@ -60,11 +61,11 @@ Definition check_one (c : case1) : bool :=
    (returned nothing / raised e / returned a generator); for a pull the items obtained *)
 Inductive skind := KNothing | KRaised (e : aexn) | KGen.
 Inductive hobs := OQ | OQRaised   (* queueing the call raised on the client: never happens in the model *)
-              | OS (st : Z) (log : list acall) (k : skind) | OI (outs : list (outcome Z aexn)).
+              | OS (st : Z) (log : list acall) (k : skind) | OI (outs : list (outcome aval aexn)).
 Record hcase := { h_keep : bool;      (* probed: does the queue survive a submission that raised? *)
                   h_s0 : Z; h_events : list (event acall); h_obs : list hobs; h_final : Z }.
 
-Definition kind_of (o : client_obs Z aexn) : skind :=
+Definition kind_of (o : client_obs aval aexn) : skind :=
   match o with CNothing => KNothing | CRaised e => KRaised e | CStream _ => KGen end.
 Definition skind_eqb (a b : skind) : bool :=
   match a, b with
@@ -72,14 +73,14 @@ Definition skind_eqb (a b : skind) : bool :=
   | KRaised e, KRaised e' => aexn_eqb e e'
   | _, _ => false
   end.
-Definition hobs_eqb (m : hitem Z acall Z aexn) (o : hobs) : bool :=
+Definition hobs_eqb (m : hitem Z acall aval aexn) (o : hobs) : bool :=
   match m, o with
   | HQueued, OQ => true
   | HSub _ b, OS st log k => (b_state b =? st) && list_eqb acall_eqb (b_log b) log && skind_eqb (kind_of (b_obs b)) k
   | HIter outs, OI outs' => list_eqb out_eqb outs outs'
   | _, _ => false
   end.
-Fixpoint trace_eqb (t : list (hitem Z acall Z aexn)) (o : list hobs) : bool :=
+Fixpoint trace_eqb (t : list (hitem Z acall aval aexn)) (o : list hobs) : bool :=
   match t, o with
   | [], [] => true
   | x :: t', y :: o' => hobs_eqb x y && trace_eqb t' o'
